@@ -49,17 +49,26 @@ Section Export.
   Definition map_first {A} (f : A -> A) (l : list A) : list A :=
     match l with [] => [] | x :: r => f x :: r end.
 
-  Definition export (ts : list triplet) : result (list string) :=
-    match ts with
-    | [] => Err EIndex                                        (* triplets[0] *)
-    | t0 :: _ =>
-        let lines := serialize num_text (t_pre t0) ::
-                     flat_map (fun t => [action_line (t_act t); serialize num_text (t_post t)]) ts in
-        Ok (map_last (fun s => s +++ ")") (map_first (fun s => "(" +++ s) lines))
-    end.
+  (* the exporter, for a given state printer *)
+  Section With.
+    Variable ser : mstate -> string.
 
-  Definition export_text (ts : list triplet) : result string :=
-    do lines <- export ts; Ok (fold_right String.append "" lines).
+    Definition export_with (ts : list triplet) : result (list string) :=
+      match ts with
+      | [] => Err EIndex                                        (* triplets[0] *)
+      | t0 :: _ =>
+          let lines := ser (t_pre t0) ::
+                       flat_map (fun t => [action_line (t_act t); ser (t_post t)]) ts in
+          Ok (map_last (fun s => s +++ ")") (map_first (fun s => "(" +++ s) lines))
+      end.
+
+    Definition export_text_with (ts : list triplet) : result string :=
+      do lines <- export_with ts; Ok (fold_right String.append "" lines).
+  End With.
+
+  (* TrajectoryExporter.export / export_to_file: State.serialize *)
+  Definition export (ts : list triplet) : result (list string) := export_with (serialize num_text) ts.
+  Definition export_text (ts : list triplet) : result string := export_text_with (serialize num_text) ts.
 End Export.
 
 (* ---------- the observation ---------- *)
